@@ -112,6 +112,13 @@ CHECKS = {
         technique=MC_TECH + " (all token/character sequences for tiling and spans; all planted-position frames, differential against the stand-alone placement)",
         design="DESIGN.md §4 C17",
     ),
+    "C18": dict(
+        category="exploration",
+        text="(collector) Every evaluable generated program (<= k constructs), every 2-layer inheritance chain and a list of cyclic structures ending in a value, an error, an assertion failure and the frame limit: after dropping result and State and collecting cycles on the worker thread, the tracked-object count is back at its value before the evaluation. (interner) Every history of <= 3 (thorough 4) operations over 44 operations on 3 handle slots and 4 contents (intern_str/intern_bytes/From<char>/clone/drop/cast_bytes/cast_str/pool hand-over to the same and a new OS thread), plus a breadth-first search over all model states to the fixed point with every operation tried from every state: equality <=> equal contents, contents intact, cast_str fails exactly on invalid UTF-8, pool (hook) = distinct live contents, empty when all handles are dropped.",
+        note="Trusted: jrsonnet-gcmodule's count_thread_tracked() as the observation of tracked objects; the interner model (slot kind + content).",
+        technique=MC_TECH + " (all generated programs for the collector; explicit-state exploration of interner operation histories against an executable model, merged BFS to fixed point + unmerged bounded histories)",
+        design="DESIGN.md §4 C18",
+    ),
     "C19": dict(
         category="exploration",
         text="Every generated whole-grammar program (<= k constructs), every single insertion of a block / line / trailing / hash comment at every token boundary and comments at every boundary at once, every short string literal in the four quotings and every small text block (tabs, blank and whitespace-only lines, both terminators), plus the repository inputs: the formatter declines or prints text that the evaluator's default parser accepts with the same position-free tree (modulo the two documented sugar equivalences), and the comment sequence of the output equals that of the input.",
